@@ -98,7 +98,7 @@ fn gen_arc_files(rng: &mut Rng, miri: bool) -> Files {
     f
 }
 
-pub const REQUIRED: &[&str] = &["padded_header", "no_padded_header", "empty_file", "record_order_differs_from_body_order", "no_count_label", "no_info_label", "record_without_name", "record_range_outside_data", "tables_before_bodies", "tables_before_bodies_with_empty_file", "last_body_ends_data_region_aligned", "empty_file_at_end_of_data"];
+pub const REQUIRED: &[&str] = &["padded_header", "no_padded_header", "empty_file", "record_order_differs_from_body_order", "no_count_label", "no_info_label", "record_without_name", "record_range_outside_data", "tables_before_bodies", "tables_before_bodies_with_empty_file", "last_body_ends_data_region_aligned", "empty_file_at_end_of_data", "poisoned_by_failing_calls_first"];
 
 pub fn run(cx: &mut Ctx) {
     cx.require(REQUIRED);
@@ -133,6 +133,7 @@ pub fn run(cx: &mut Ctx) {
     let n = cx.a.n(400_000, 3_000_000);
     for _ in 0..n {
         cx.case("random", |c| {
+            super::poison::maybe(c, 9);
             let mut rng = c.rng.clone();
             let files = gen_arc_files(&mut rng, miri);
             let mut plan = ArcPlan { padded_header: rng.bool(), shuffle_bodies: rng.bool(), shuffle_records: rng.bool(), gaps: rng.bool(), decoy_labels: rng.bool(), tables_first: rng.chance(1, 3), ..Default::default() };
